@@ -822,6 +822,9 @@ def _sbml_to_model(
         if f_replace and F_REACTION in f_replace:
             rid = f_replace[F_REACTION](rid)
         cobra_reaction = Reaction(rid)
+        # The bounds are assigned one at a time below; start unbounded so that a
+        # lower bound above the default upper bound is not rejected.
+        cobra_reaction.bounds = (-float("inf"), float("inf"))
         cobra_reaction.name = reaction.getName().strip()
         cobra_reaction.annotation = _parse_annotations(reaction)
         cobra_reaction.notes = _parse_notes_dict(reaction)
